@@ -42,7 +42,7 @@ ASSUMPTIONS = [
 MIN_EVENTS = {
     'quick': {'commands_swept': 1000, 'distinct_opcodes_swept': 200, 'pending_procedures_followed': 40,
               'host_commands': 1500, 'own_opcode_checks': 1500, 'proc_cases': 40},
-    'thorough': {'commands_swept': 30000, 'distinct_opcodes_swept': 220, 'pending_procedures_followed': 2000,
+    'thorough': {'commands_swept': 18000, 'distinct_opcodes_swept': 220, 'pending_procedures_followed': 600,
                  'host_commands': 30000, 'own_opcode_checks': 30000, 'proc_cases': 800},
 }
 CASE_TIMEOUT = 600
